@@ -282,8 +282,21 @@ async def run_logrt(ctx) -> None:
 
     body = "\n".join(text_lines) + "\n"
     proto2 = _P(lambda m: None)
-    T.FileTransport(io.TextIOWrapper(io.BytesIO(body.encode("latin-1")), encoding="latin-1"), proto2, loop=loop)
-    await asyncio.sleep(0.001)  # connection_made() is call_soon'ed; only then is there a future to wait on
+    tr2 = T.FileTransport(io.TextIOWrapper(io.BytesIO(body.encode("latin-1")), encoding="latin-1"), proto2, loop=loop)
+    for _ in range(3):  # connection_made() is call_soon'ed; only then is there a future to wait on.  (Not sleep(0.001): the
+        await asyncio.sleep(0)  # reader yields with sleep(0) per line, so the whole log would be replayed before the clock moves)
+    # the application may pause the replay for a while (an engine does, for every snapshot / restore): nothing may be lost
+    pauses = plan.decide("replay_pauses", lambda r: [[r.randrange(1, 60), r.choice([1, 2, 5])] for _ in range(r.choice([0, 0, 1, 3]))], [])
+    for after, turns in pauses:
+        for _ in range(after):
+            await asyncio.sleep(0)
+        if tr2.is_closing() if hasattr(tr2, "is_closing") else False:
+            break
+        tr2.pause_reading()
+        ctx.hub.count("replay_paused")
+        for _ in range(turns):
+            await asyncio.sleep(0.0011)
+        tr2.resume_reading()
     try:
         err = await proto2.wait_for_connection_lost(timeout=60)
     except Exception as e:  # noqa
